@@ -55,6 +55,7 @@ type Opts struct {
 	SKID      []byte
 	DNS       []string
 	NoAKID    bool
+	KeyUsage  x509.KeyUsage // 0 = certSign|cRLSign for CAs, digitalSignature otherwise
 }
 
 var (
@@ -141,6 +142,9 @@ func template(o Opts) *x509.Certificate {
 		t.KeyUsage = x509.KeyUsageCertSign | x509.KeyUsageCRLSign
 	} else {
 		t.KeyUsage = x509.KeyUsageDigitalSignature
+	}
+	if o.KeyUsage != 0 {
+		t.KeyUsage = o.KeyUsage
 	}
 	switch o.Poison {
 	case "ok":
